@@ -233,6 +233,43 @@ class AM:
         require(not is_raised(r), 'slice assignment raised', got=r, slice=(a, b, c), n=len(new))
         self.items = l
 
+    def do_setslice_alias(self, sl, how):
+        """slice assignment whose value is the Array itself, a slice of it or an equal Array of the same dtype: list semantics (the right-hand side is
+        evaluated before anything is written)"""
+        a, b, c = rsl(sl, len(self.items))
+        if how == 'self':
+            value, vals = self.a, list(self.items)
+        elif how == 'self_reversed_view':
+            value, vals = self.a[::-1], list(self.items)[::-1]
+        elif how == 'self_head':
+            k = len(self.items) // 2
+            value, vals = self.a[:k], list(self.items)[:k]
+        else:
+            value, vals = self.bs.Array(self.dt.make(self.bs), self.a.tolist()), [canonical(self.dt, x) for x in self.items]
+        if self.trail and how in ('self', 'equal_array'):
+            # an Array with trailing bits on the right-hand side: only its whole items count
+            vals = vals[:len(self.items)]
+        r = attempt(self.a.__setitem__, slice(a, b, c), value)
+        if c == 0:
+            require(is_raised(r, ValueError), 'slice step 0 must raise ValueError', got=r)
+            return
+        l = list(self.items)
+        try:
+            l[a:b:c] = vals
+        except ValueError:
+            require(is_raised(r, ValueError), 'extended slice assignment with a different item count must raise ValueError', got=r, slice=(a, b, c), n=len(vals))
+            return
+        require(not is_raised(r), 'slice assignment from the Array itself raised', got=r, slice=(a, b, c), how=how)
+        self.items = l
+
+    def do_extend_self(self):
+        r = attempt(self.a.extend, self.a)
+        if self.trail:
+            require(is_raised(r, ValueError), 'extend with trailing bits must raise ValueError', got=r)
+        else:
+            require(not is_raised(r), 'a.extend(a) raised', got=r)
+            self.items = self.items + self.items
+
     def do_delitem(self, i):
         n = len(self.items)
         i = rix(i, n)
@@ -490,6 +527,10 @@ def step_st(draw, kinds):
         return [k, draw(ix_spec()), draw(raw)]
     if k == 'setslice':
         return [k, draw(sl_spec()), draw(st.lists(raw, max_size=4))]
+    if k == 'setslice_alias':
+        return [k, draw(sl_spec()), draw(st.sampled_from(['self', 'self', 'self_reversed_view', 'self_head', 'equal_array']))]
+    if k == 'extend_self':
+        return [k]
     if k == 'delitem':
         return [k, draw(ix_spec())]
     if k == 'append':
@@ -519,7 +560,7 @@ def step_st(draw, kinds):
     raise AssertionError(k)
 
 
-LIST_OPS = ['getitem', 'getslice', 'setitem', 'setslice', 'delitem', 'delslice', 'append', 'extend', 'insert', 'pop', 'reverse', 'count', 'iter_copy_equals', 'astype']
+LIST_OPS = ['getitem', 'getslice', 'setitem', 'setslice', 'setslice_alias', 'extend_self', 'delitem', 'delslice', 'append', 'extend', 'insert', 'pop', 'reverse', 'count', 'iter_copy_equals', 'astype']
 ALL_STEPS = LIST_OPS + ['astype_other', 'set_dtype', 'bad_dtype', 'data_edit', 'data_edit', 'byteswap', 'bitwise', 'insert', 'pop', 'setitem']
 
 
